@@ -13,6 +13,27 @@ func init() {
 	vHarnesses["VerifC01Deep"] = VerifC01Deep
 	vHarnesses["VerifC01Seq"] = VerifC01Seq
 	vHarnesses["VerifC01Kinds"] = VerifC01Kinds
+	vHarnesses["VerifC01Perm"] = VerifC01Perm
+}
+
+// VerifC01Perm: set / multiset members that are themselves two-element arrays (bare or inside a
+// one-key object), so that members can be equal under the reading in force while spelled
+// differently as lists ([x,y] vs [y,x]); the diff side and the patch side must agree on them.
+func VerifC01Perm() {
+	n := vParam("N", 2)
+	m := vParam("M", 1)
+	mk := func(max int) jsonArray {
+		a := make(jsonArray, vChoice(max+1))
+		for i := range a {
+			var e JsonNode = jsonArray{vNum(), vNum()}
+			if vParam("OBJS", 1) == 1 && vChoice(2) == 1 {
+				e = jsonObject{"t": e}
+			}
+			a[i] = e
+		}
+		return a
+	}
+	vC01Check(mk(n), mk(m), vOptChoice(0x06), "c01.perm")
 }
 
 // VerifC01Seq: longer arrays (up to N) whose elements are numbers or one-element arrays, so
